@@ -4,6 +4,7 @@ import (
 	"encoding/json"
 	"flag"
 	"fmt"
+	"go/types"
 	"os"
 	"os/exec"
 	"path/filepath"
@@ -70,6 +71,7 @@ func cmdFunc(args []string) int {
 	verbose := fs.Bool("v", false, "print every obligation")
 	timeout := fs.Int("t", 10, "solver timeout (s)")
 	keep := fs.String("smt", filepath.Join(verifRoot, "smt", "dev"), "directory for SMT files")
+	sweep := fs.Bool("sweep", false, "also verify every function without a contract against an empty contract (safety obligations only; a triage aid, not a check)")
 	fs.Parse(args)
 	t0 := time.Now()
 	prog, err := loadProgram(filepath.Join(repoRoot, *dir), strings.Split(*pkg, ","))
@@ -87,6 +89,25 @@ func cmdFunc(args []string) int {
 			continue
 		}
 		specs = append(specs, sp)
+	}
+	if *sweep {
+		for k, fd := range prog.decls {
+			if prog.specs[k] != nil || fd.decl == nil || fd.decl.Body == nil || strings.Contains(k, ".__") || (*key != "" && !strings.Contains(k, *key)) {
+				continue
+			}
+			if strings.HasSuffix(prog.fset.Position(fd.decl.Pos()).Filename, "_test.go") || !strings.HasPrefix(prog.fset.Position(fd.decl.Pos()).Filename, repoRoot) {
+				continue
+			}
+			sig := fd.fn.Type().(*types.Signature)
+			sp := &FuncSpec{Kind: SKContract, Key: k, PkgPath: fd.pkg.PkgPath, Name: fd.fn.Name(), NoOvf: true, Loops: map[int]*LoopSpec{}, Asserts: map[string][]*Clause{}, AtCalls: map[string][]*Clause{}, Pragmas: map[string]string{"opaque_func_values": "", "wraps": "sweep"}, ModAll: true}
+			for i := 0; i < sig.Params().Len(); i++ {
+				sp.Params = append(sp.Params, Param{sig.Params().At(i).Name(), ""})
+			}
+			for i := 0; i < sig.Results().Len(); i++ {
+				sp.Results = append(sp.Results, Param{sig.Results().At(i).Name(), ""})
+			}
+			specs = append(specs, sp)
+		}
 	}
 	sort.Slice(specs, func(i, j int) bool { return specs[i].Key < specs[j].Key })
 	bad := 0
